@@ -32,6 +32,39 @@ package fr
 //@ modifies z
 //@ end
 
+// The way back and the lenient byte decoder. toBigInt writes the integer denoted by the limbs (no conversion), BigInt
+// the regular value of a reduced Montgomery element; SetBytes accepts every byte string of every length and sets z to
+// the big-endian integer it denotes, reduced modulo q (fast path for canonical strings of the element's size through the
+// strict decoder, everything else through math/big and SetBigInt).
+//@ func Element.toBigInt
+//@ tags any
+//@ layer bigint big.Int
+//@ ensures[value] *res == val(z)
+//@ ensures[result] result == res
+//@ modifies res
+//@ end
+
+//@ func Element.BigInt
+//@ tags any
+//@ layer bigint big.Int
+//@ requires val(z) < q
+//@ ensures[value] *res == reg(val(z))
+//@ ensures[result] result == res
+//@ modifies res
+//@ end
+
+//@ func Element.SetBytes
+//@ tags any
+//@ layer bigint big.Int
+//@ option nomerge
+//@ option split-post
+//@ option opaque Get Put
+//@ smt (define-fun-rec big.frombytes ((a (Array Int Int)) (off Int) (n Int)) Int (ite (<= n 0) 0 (+ (* 256 (big.frombytes a off (- n 1))) (select a (+ off (- n 1))))))
+//@ ensures[value] reg(val(z)) == bigmod(bewin(e, 0, len(e)), q) && val(z) < q
+//@ ensures[result] result == z
+//@ modifies z
+//@ end
+
 // SetString accepts exactly the numeric strings that math/big accepts with the base selected by the prefix (base 0),
 // sets z to the residue modulo q of the integer the string denotes, and otherwise returns (nil, error) and leaves z
 // as it was. The parser of math/big is the pair of uninterpreted functions bigparseok / bigparse of the characters;
